@@ -151,7 +151,11 @@ impl ConnectionState {
         let ch0_slot = match self {
             ConnectionState::Steady(ch0_slot) => ch0_slot,
             ConnectionState::ClientException => return Ok(()),
-            ConnectionState::ServerClosing(_) | ConnectionState::ClientClosed => {
+            // The server has closed the connection and we are only flushing what was
+            // queued before, and our CloseOk; whatever the server still sends meanwhile
+            // (its heartbeat sender does not know about the close) is of no interest.
+            ConnectionState::ServerClosing(_) => return Ok(()),
+            ConnectionState::ClientClosed => {
                 return FrameUnexpectedSnafu.fail();
             }
         };
